@@ -23,6 +23,7 @@ type SpecEnv struct {
 	guard string
 	results []SV
 	loopEntry *State // set while a loop invariant is evaluated: the state on entry to that loop (builtin loopentry(E))
+	visitedKey, visitedSort string // set while an invariant of a map-range loop is evaluated: its visited-set component (ext_maprange.go)
 }
 
 type specErr struct{ msg string }
@@ -1158,6 +1159,10 @@ func (e *SpecEnv) applyPureKey(key string, sig *types.Signature, args []SV, fn *
 			r.typ = rt
 		}
 		return r
+	}
+	if t, ok := fc.pureHeapTerm(key, e.cur, args, rt); ok { // pointer/slice arguments: the value depends on the heap (pureheap.go)
+		fc.calleesUsed[key] = true
+		return SV{t: t, typ: rt}
 	}
 	var sorts, ts []string
 	for _, a := range args {
